@@ -1252,6 +1252,18 @@ impl PoolExec {
         }
     }
 
+    /// A block the model built (valid by construction) was refused by the node. In the cache-twin runs
+    /// that is a verdict a cache may have changed (C14); elsewhere the model and the node disagree
+    /// for a reason the run's property does not speak about: harness error, never ignored.
+    fn model_block_rejected(&mut self, kind: &str, e: &str) {
+        if self.sc.prop == "C14" {
+            let class: String = e.split('(').take(3).collect::<Vec<_>>().join("(");
+            self.viol("C14", &format!("valid_block_refused:{class}"), format!("a block built by the model ({kind}; every rule met in its context) was refused: {e}"));
+        } else {
+            self.res.harness_error = Some(format!("model-built {kind} block rejected: {e}"));
+        }
+    }
+
     /// cold twin of C14: the verification cache is emptied (between polls nobody holds its lock)
     fn cool_verify_cache(&mut self) {
         if self.sc.verify_cache_cold {
@@ -1851,7 +1863,7 @@ impl PoolExec {
             self.now = self.now.max(v.timestamp());
             self.ft.set_faketime(self.now);
             if let Some(Err(e)) = self.deliver(&v) {
-                self.res.harness_error = Some(format!("model-built foreign block rejected: {e}"));
+                self.model_block_rejected("foreign", &e);
                 return;
             }
             if j == wc && v.transactions().len() > 1 {
@@ -1890,7 +1902,7 @@ impl PoolExec {
             self.now = self.now.max(v.timestamp());
             self.ft.set_faketime(self.now);
             if let Some(Err(e)) = self.deliver(&v) {
-                self.res.harness_error = Some(format!("model-built twin-branch block rejected: {e}"));
+                self.model_block_rejected("twin-branch", &e);
                 return;
             }
             if j == wc && v.transactions().iter().skip(1).any(|x| x.hash() == tx.hash() && x.witness_hash() != tx.witness_hash()) {
@@ -1966,7 +1978,7 @@ impl PoolExec {
             self.now = self.now.max(v.timestamp());
             self.ft.set_faketime(self.now);
             if let Some(Err(e)) = self.deliver(&v) {
-                self.res.harness_error = Some(format!("model-built quiet block rejected: {e}"));
+                self.model_block_rejected("quiet", &e);
                 return;
             }
             self.take_queued();
@@ -1990,7 +2002,7 @@ impl PoolExec {
         self.now = self.now.max(v.timestamp());
         self.ft.set_faketime(self.now);
         if let Some(Err(e)) = self.deliver(&v) {
-            self.res.harness_error = Some(format!("model-built sibling block rejected: {e}"));
+            self.model_block_rejected("sibling", &e);
             return;
         }
         self.res.faults.inc("sibling_of_tip_delivered");
@@ -2047,7 +2059,7 @@ impl PoolExec {
                 if self.sc.prop == "C04" {
                     self.viol("C04", "block_rejects_valid_tx:model_branch", format!("a competing branch built by the model (every transaction valid in its context) was refused: {e}"));
                 } else {
-                    self.res.harness_error = Some(format!("model-built fork block rejected: {e}"));
+                    self.model_block_rejected("fork", &e);
                 }
                 return;
             }
